@@ -21,13 +21,13 @@ TECHNIQUE = 'runtime monitoring: offline checker over recorded digests of the sa
 LEVEL = "exploration"
 CASE_TIMEOUT = 3600
 RULE = ("datasets per family (daily current+legacy+developer, billing, hourly with explicit seed (incl. seed 0 on meters with irregular load shapes and with a supplemental column) solar/non-solar/developer, CalTRACK hourly) x contexts "
-        "{in-process twice, fresh process, warmed process, perturbed global RNG, PYTHONHASHSEED random, OMP_NUM_THREADS unset/1/4, cold numba cache, "
+        "{in-process twice, fresh process, warmed process, process that first used the same family with other configurations (supplemental columns, other bins/scaler, custom maps, developer profiles), perturbed global RNG, PYTHONHASHSEED random, OMP_NUM_THREADS unset/1/4, cold numba cache, "
         "batch order permuted, 4 and 16 concurrent identical fits}; oracle: all digests of a dataset are equal.  distinct_nontrivial = distinct "
         "(dataset, context) executions beyond the first of each dataset.")
 ASSUMPTIONS = ["same machine, same library builds: cross-platform bit-equality is not claimed",
                "hourly models are fitted with an explicit seed (seed=None draws from the global RNG and is outside the statement)"]
 REQUIRED_REACH = {"dataset.hourly_seed_0": 2, "dataset.compared": 6, "context.executions": 30, "context.fresh_process": 6, "context.warmed": 4, "context.hashseed_random": 4,
-                  "context.concurrent": 2, "context.batch_permuted": 2, "context.omp4": 2, "context.near_duplicates": 4}
+                  "context.concurrent": 2, "context.batch_permuted": 2, "context.omp4": 2, "context.near_duplicates": 4, "context.other_configurations_first": 6}
 REQUIRED_REACH_THOROUGH = {"context.cold_numba_cache": 1}
 
 VIOL = []
@@ -66,6 +66,7 @@ def contexts(spec, tier):
           ("hashseed-random", dict(), {"PYTHONHASHSEED": "random"}),
           ("blas-threads-4", dict(), dict(T4, PYTHONHASHSEED="0")),
           ("warmed", dict(warm=2, ctx_seed=spec["n"] + 5), {"PYTHONHASHSEED": "0"}),
+          ("after-other-configurations-of-the-family", dict(warm=1, other_configurations=True, ctx_seed=spec["n"] + 13), {"PYTHONHASHSEED": "0"}),
           ("perturbed-global-rng", dict(perturb_rng=True, ctx_seed=spec["n"] + 77), {"PYTHONHASHSEED": "0"}),
           ("batch-permuted", dict(batch=[2, "TARGET", 1] if spec["n"] % 2 else [1, 2, "TARGET"]), {"PYTHONHASHSEED": "0"}),
           ("after-near-duplicate-meters", dict(near_dups=6, ctx_seed=spec["n"] + 31), {"PYTHONHASHSEED": "0"}),
@@ -95,6 +96,8 @@ def run_case(spec):
             I.reach("context.fresh_process")
         if "warmed" in name:
             I.reach("context.warmed")
+        if "other-configurations" in name:
+            I.reach("context.other_configurations_first")
         if env.get("PYTHONHASHSEED") == "random":
             I.reach("context.hashseed_random")
         if "threads-4" in name or name == "combined":
@@ -131,6 +134,8 @@ def run_case(spec):
         if r["input"] != ref["input"]:
             raise RuntimeError("harness defect: context %s was given other input data" % name)
         diffs = [k for k in ("json", "pred", "pred_baseline") if r[k] != ref[k]]
+        if r.get("raised") or ref.get("raised"):
+            I.reach("context.fit_raised")
         if diffs:
             ctxname = name.split("#")[0].split("-of-")[0]
             add("fit-not-reproducible:%s:%s" % (FT.Family(spec["family"]).kind, ctxname.rstrip("-0123456789")),
